@@ -841,21 +841,69 @@ Proof.
   destruct (_ =? _)%num; [discriminate Hd|]. injection Hd as <-. exact Hw.
 Qed.
 
-Lemma mk_curved_wf (sph : bool) (a0 a1 : V3) (r : R) (d : det3d) :
-  mk_curved sqrt sph a0 a1 r = Some d -> wf_det3' d.
+(* the repaired alignment matrix is orthogonal and maps -e_y -> a0/|a0|, e_z -> a1/|a1| *)
+Lemma frame_of_orthonormal (b0 b1 : V3) : dot3 b0 b0 = 1 -> dot3 b1 b1 = 1 -> dot3 b0 b1 = 0 ->
+  let m := tr3 (neg3 (cross3 b0 b1), neg3 b0, b1) in
+  mm3 (tr3 m) m = id3 /\ mv3 m (0, - (1), 0) = b0 /\ mv3 m (0, 0, 1) = b1 /\ mv3 m (1, 0, 0) = neg3 (cross3 b0 b1).
+Proof.
+  d3 b0; d3 b1. unf. intros H0 H1 H01. repeat split; pair_eq; try ring; nsatz.
+Qed.
+Lemma dot3_sdiv_both (a b : V3) (k l : R) : k <> 0 -> l <> 0 -> dot3 (sdiv3 a k) (sdiv3 b l) = dot3 a b / (k * l).
+Proof. intros Hk Hl. d3 a; d3 b. unf. field. split; assumption. Qed.
+Lemma curved_frame_spec (a0 a1 : V3) : norm3 sqrt a0 <> 0 -> norm3 sqrt a1 <> 0 -> dot3 a0 a1 = 0 ->
+  let m := curved_frame sqrt a0 a1 in
+  mm3 (tr3 m) m = id3 /\ mv3 m (0, - (1), 0) = sdiv3 a0 (norm3 sqrt a0) /\ mv3 m (0, 0, 1) = sdiv3 a1 (norm3 sqrt a1).
+Proof.
+  intros H0 H1 Hp. unfold curved_frame.
+  pose proof (frame_of_orthonormal _ _ (normalize3_unit a0 H0) (normalize3_unit a1 H1)) as Hf.
+  rewrite dot3_sdiv_both in Hf by assumption. rewrite Hp in Hf. unfold Rdiv in Hf. rewrite Rmult_0_l in Hf.
+  destruct (Hf eq_refl) as [Ho [Ha [Hb _]]]. repeat split; assumption.
+Qed.
+
+Lemma mk_curved_wf (fixed sph : bool) (a0 a1 : V3) (r : R) (d : det3d) :
+  mk_curved sqrt fixed sph a0 a1 r = Some d -> wf_det3' d.
 Proof.
   unfold mk_curved. numR.
   destruct (Reqb_spec (norm3 sqrt (cross3 a0 a1)) 0) as [Hn|Hn]; [intros Hx; discriminate Hx|].
   destruct (Reqb_spec (dot3 a0 a1) 0) as [Hp|Hp]; cbn [negb]; [|intros Hx; discriminate Hx].
   destruct (Rleb_spec r 0) as [Hr|Hr]; [intros Hx; discriminate Hx|].
-  destruct (curved_rot sqrt a0 a1) as [m|] eqn:Em; [|intros Hx; discriminate Hx].
   assert (Hc : cross3 a0 a1 <> (0, 0, 0)) by (intros Hc; apply Hn, norm3_zero_iff, Hc).
   assert (H0 : norm3 sqrt a0 <> 0).
   { intros H0. apply norm3_zero_iff in H0. subst a0. apply Hc, cross3_zero_l. }
   assert (H1 : norm3 sqrt a1 <> 0).
   { intros H1. apply norm3_zero_iff in H1. subst a1. apply Hc, cross3_zero_r. }
-  intros [= <-]. destruct sph; cbn; repeat split; try (apply normalize3_unit; assumption); try lra;
-    apply (curved_rot_orth _ _ _ Em).
+  destruct fixed.
+  - intros [= <-]. destruct (curved_frame_spec a0 a1 H0 H1 Hp) as [Ho _].
+    destruct sph; cbn; repeat split; try (apply normalize3_unit; assumption); try lra; exact Ho.
+  - destruct (curved_rot sqrt a0 a1) as [m|] eqn:Em; [|intros Hx; discriminate Hx].
+    intros [= <-]. destruct sph; cbn; repeat split; try (apply normalize3_unit; assumption); try lra;
+      apply (curved_rot_orth _ _ _ Em).
+Qed.
+
+(* with the repaired alignment, surface_deriv(0, 0) = radius * axes (cylinder: height axis itself) *)
+Lemma mk_curved_fixed_deriv (sph : bool) (a0 a1 : V3) (r u v : R) (d : det3d) :
+  mk_curved sqrt true sph a0 a1 r = Some d ->
+  deriv3 d (u, v, (1, 0), (1, 0)) =
+  (scal3 r (fst (det3_axes d)), if sph then scal3 r (snd (det3_axes d)) else snd (det3_axes d)).
+Proof.
+  unfold mk_curved. numR.
+  destruct (Reqb_spec (norm3 sqrt (cross3 a0 a1)) 0) as [Hn|Hn]; [intros Hx; discriminate Hx|].
+  destruct (Reqb_spec (dot3 a0 a1) 0) as [Hp|Hp]; cbn [negb]; [|intros Hx; discriminate Hx].
+  destruct (Rleb_spec r 0) as [Hr|Hr]; [intros Hx; discriminate Hx|].
+  assert (Hc : cross3 a0 a1 <> (0, 0, 0)) by (intros Hc; apply Hn, norm3_zero_iff, Hc).
+  assert (H0 : norm3 sqrt a0 <> 0).
+  { intros H0. apply norm3_zero_iff in H0. subst a0. apply Hc, cross3_zero_l. }
+  assert (H1 : norm3 sqrt a1 <> 0).
+  { intros H1. apply norm3_zero_iff in H1. subst a1. apply Hc, cross3_zero_r. }
+  intros [= <-]. destruct (curved_frame_spec a0 a1 H0 H1 Hp) as [_ [Ha Hb]].
+  set (m := curved_frame sqrt a0 a1) in *.
+  destruct sph; cbn [deriv3 det3_axes fst snd]; numR; rewrite !mv3_scal.
+  - f_equal; f_equal.
+    + etransitivity; [|exact Ha]. f_equal. unf. pair_eq; ring.
+    + etransitivity; [|exact Hb]. f_equal. unf. pair_eq; ring.
+  - f_equal; [f_equal|].
+    + etransitivity; [|exact Ha]. f_equal. unf. pair_eq; ring.
+    + exact Hb.
 Qed.
 
 Lemma mk_par2d_wf (pos : V2) (ax : option V2) (tr : V2) (g : par2d) :
@@ -907,9 +955,9 @@ Proof.
   all: destruct curv; [apply (mk_circ_wf _ _ _ Ed) | apply (mk_flat1_wf _ _ Ed)].
 Qed.
 
-Lemma mk_cone_wf (rs rd : R) (curv : curv3) (pitch off : R) (axis : V3) (s2d : option V3)
+Lemma mk_cone_wf (fixed : bool) (rs rd : R) (curv : curv3) (pitch off : R) (axis : V3) (s2d : option V3)
     (axes : option (V3 * V3)) (tr : V3) (g : cone) :
-  mk_cone sqrt rs rd curv pitch off axis s2d axes tr = Some g ->
+  mk_cone sqrt fixed rs rd curv pitch off axis s2d axes tr = Some g ->
   dot3 (c_axis g) (c_axis g) = 1 /\ dot3 (c_s2d g) (c_s2d g) = 1 /\ wf_det3' (c_det g) /\
   0 <= c_rs g /\ 0 <= c_rd g /\ ~ (c_rs g = 0 /\ c_rd g = 0) /\
   c_tr g = tr /\ c_pitch g = pitch /\ c_off g = off.
@@ -927,7 +975,7 @@ Proof.
   all: intros [= <-]; cbn.
   all: repeat split; try lra; try (apply (unit_axis_some _ _ Eu)); try (apply normalize3_unit, Hn);
     try (intros [A B]; lra).
-  all: destruct curv; [apply (mk_flat2_wf' _ _ _ Ed) | apply (mk_curved_wf _ _ _ _ _ Ed) | apply (mk_curved_wf _ _ _ _ _ Ed)].
+  all: destruct curv; [apply (mk_flat2_wf' _ _ _ Ed) | apply (mk_curved_wf _ _ _ _ _ _ Ed) | apply (mk_curved_wf _ _ _ _ _ _ Ed)].
 Qed.
 
 (* ------------------------------------------------------------ frommatrix *)
@@ -1074,9 +1122,9 @@ Proof. intros Hm. unfold norm3. rewrite (rot3_isometry m v v (proj1 Hm)). reflex
 
 (* ConeBeamGeometry.frommatrix (flat detector) with a rotation matrix m and translation t: source and
    detector points are t + m (default geometry's), for all radii, pitch, offset, shifts, angles *)
-Lemma cone_frommatrix_spec (rs rd pitch off : R) (m : M3) (tr : V3) (g : cone)
+Lemma cone_frommatrix_spec (fixed : bool) (rs rd pitch off : R) (m : M3) (tr : V3) (g : cone)
     (a : R * R) (ang twopi : R) (ssh dsh : V3) (p : dpar3) :
-  is_rot3 m -> cone_frommatrix sqrt rs rd CFlat pitch off m tr = Some g ->
+  is_rot3 m -> cone_frommatrix sqrt fixed rs rd CFlat pitch off m tr = Some g ->
   cone_src sqrt g a ang twopi ssh = add3 tr (mv3 m (cone_src sqrt (cone_default rs rd pitch off) a ang twopi ssh)) /\
   cone_detpoint sqrt g a ang twopi dsh p =
     add3 tr (mv3 m (cone_detpoint sqrt (cone_default rs rd pitch off) a ang twopi dsh p)) /\
@@ -1171,6 +1219,100 @@ Proof.
                  = (x * x + y * y) * (c * c + s * s)) by ring.
     rewrite Ha in E2. lra.
   - match goal with |- _ <= ?v <= _ => assert (E : v = z) by ring; rewrite E end. exact Hz.
+Qed.
+
+
+(* core of all cone-beam frommatrix statements: if axis, src_to_det_init, translation and the detector
+   surface of g are the images under (m, tr) of those of g0, so is every detector point *)
+Lemma cone_detpoint_image (m : M3) (tr : V3) (g g0 : cone) (a : R * R) (ang twopi : R) (dsh : V3) (p : dpar3) :
+  is_rot3 m -> c_axis g = mv3 m (0, 0, 1) -> c_s2d g = mv3 m (0, 1, 0) -> c_tr g = tr ->
+  c_axis g0 = (0, 0, 1) -> c_s2d g0 = (0, 1, 0) -> c_tr g0 = (0, 0, 0) ->
+  c_rd g = c_rd g0 -> c_pitch g = c_pitch g0 -> c_off g = c_off g0 ->
+  surf3 (c_det g) p = mv3 m (surf3 (c_det g0) p) ->
+  cone_detpoint sqrt g a ang twopi dsh p = add3 tr (mv3 m (cone_detpoint sqrt g0 a ang twopi dsh p)).
+Proof.
+  intros Hm Ha Hs Ht Ha0 Hs0 Ht0 Hrd Hp Ho Hsf.
+  unfold cone_detpoint, cone_refpoint, cone_rot, cone_along.
+  rewrite Ha, Hs, Ht, Ha0, Hs0, Ht0, Hrd, Hp, Ho, Hsf. destruct dsh as [[s0 s1] s2].
+  set (sf := surf3 (c_det g0) p).
+  rewrite <- (rot3_cross m _ _ Hm), neg3_mv3, sdiv3_mv3, (norm3_rot m _ Hm).
+  set (tg := sdiv3 _ _). numR. set (k := c_off g0 + c_pitch g0 * ang / twopi + s2).
+  rewrite !(mv3_add m), <- !(axis_rot_conj m _ a _ Hm), !(mv3_add m), !(mv3_scal m).
+  assert (Hz : mv3 m (0, 0, 0) = (0, 0, 0)) by (destruct m as [[[[a1 a2] a3] [[a4 a5] a6]] [[a7 a8] a9]]; unf; pair_eq; ring).
+  rewrite Hz.
+  set (R1 := axis_rot (mv3 m (0, 0, 1)) a).
+  set (X := mv3 R1 (add3 _ _)). set (Y := mv3 R1 (mv3 m sf)).
+  destruct X as [[x0 x1] x2], Y as [[y0 y1] y2]. destruct (mv3 m (0, 0, 1)) as [[z0 z1] z2]. d3 tr. unf. pair_eq; ring.
+Qed.
+
+(* a matrix given by its columns, applied to a vector *)
+Lemma cols_apply (c0 c1 c2 w : V3) :
+  mv3 (tr3 (c0, c1, c2)) w =
+  add3 (scal3 (fst (fst w)) c0) (add3 (scal3 (snd (fst w)) c1) (scal3 (snd w) c2)).
+Proof. d3 c0; d3 c1; d3 c2; d3 w. unf. cbn [fst snd]. pair_eq; ring. Qed.
+
+(* the repaired alignment matrix of the rotated axes is m times the alignment matrix of the axes *)
+Lemma curved_frame_image (m : M3) (a0 a1 w : V3) : is_rot3 m -> dot3 a0 a0 = 1 -> dot3 a1 a1 = 1 ->
+  mv3 (curved_frame sqrt (mv3 m a0) (mv3 m a1)) w = mv3 m (mv3 (curved_frame sqrt a0 a1) w).
+Proof.
+  intros Hm H0 H1. unfold curved_frame.
+  rewrite !(sqrt_1_div3 _ (rot3_unit m _ Hm H0)), !(sqrt_1_div3 _ (rot3_unit m _ Hm H1)),
+    !(sqrt_1_div3 _ H0), !(sqrt_1_div3 _ H1).
+  rewrite !cols_apply, <- (rot3_cross m _ _ Hm), !neg3_mv3, !(mv3_add m), !(mv3_scal m). reflexivity.
+Qed.
+
+(* the default cone beam geometries with curved detectors (repaired alignment) *)
+Definition frame0 : M3 := curved_frame sqrt (1, 0, 0) (0, 0, 1).
+Definition cone_default_curved (sph : bool) (rs rd r pitch off : R) : @cone R :=
+  {| c_rs := rs; c_rd := rd; c_s2d := (0, 1, 0); c_axis := (0, 0, 1); c_tr := (0, 0, 0);
+     c_pitch := pitch; c_off := off;
+     c_det := if sph then Sph (1, 0, 0) (0, 0, 1) r frame0 else Cyl (1, 0, 0) (0, 0, 1) r frame0;
+     c_s2d_arg := None; c_axes_arg := None |}.
+
+(* ConeBeamGeometry.frommatrix with a CURVED detector and the repaired alignment: rigid-motion image of the
+   default geometry, for every rotation matrix, radius, pitch, offset, shift, angle, detector parameter *)
+Lemma cone_frommatrix_curved_spec (sph : bool) (rs rd r pitch off : R) (m : M3) (tr : V3) (g : cone)
+    (a : R * R) (ang twopi : R) (dsh : V3) (p : dpar3) :
+  is_rot3 m ->
+  cone_frommatrix sqrt true rs rd (if sph then CSph r else CCyl r) pitch off m tr = Some g ->
+  cone_detpoint sqrt g a ang twopi dsh p =
+    add3 tr (mv3 m (cone_detpoint sqrt (cone_default_curved sph rs rd r pitch off) a ang twopi dsh p)).
+Proof.
+  intros Hm Hg. unfold cone_frommatrix, mk_cone, obind in Hg.
+  destruct (tsys3 sqrt _ _) as [m0|]; [|discriminate Hg].
+  assert (E1 : dot3 (1, 0, 0) (1, 0, 0) = 1) by (unf; ring).
+  assert (E2 : dot3 (0, 1, 0) (0, 1, 0) = 1) by (unf; ring).
+  assert (E3 : dot3 (0, 0, 1) (0, 0, 1) = 1) by (unf; ring).
+  pose proof (rot3_unit m _ Hm E1) as U1. pose proof (rot3_unit m _ Hm E2) as U2. pose proof (rot3_unit m _ Hm E3) as U3.
+  unfold unit_axis in Hg. numR.
+  destruct (Reqb_spec (norm3 sqrt (mv3 m (0, 1, 0))) 0) as [Hn0|Hn0].
+  { apply norm3_zero_iff in Hn0. rewrite Hn0 in U2. unf. lra. }
+  destruct (Reqb_spec (norm3 sqrt (mv3 m (0, 0, 1))) 0) as [Hn|Hn].
+  { apply norm3_zero_iff in Hn. rewrite Hn in U3. unf. lra. }
+  rewrite !(sqrt_1_div3 _ U2), !(sqrt_1_div3 _ U3) in Hg.
+  assert (Hdet : exists d, (if sph then mk_curved sqrt true true (mv3 m (1, 0, 0)) (mv3 m (0, 0, 1)) r
+                            else mk_curved sqrt true false (mv3 m (1, 0, 0)) (mv3 m (0, 0, 1)) r) = Some d /\
+                 Some g = (if (rs <? 0)%num then None else if (rd <? 0)%num then None
+                           else if ((rs =? 0)%num && (rd =? 0)%num)%bool then None
+                           else Some {| c_rs := rs; c_rd := rd; c_s2d := mv3 m (0, 1, 0); c_axis := mv3 m (0, 0, 1);
+                                        c_tr := tr; c_pitch := pitch; c_off := off; c_det := d;
+                                        c_s2d_arg := Some (mv3 m (0, 1, 0));
+                                        c_axes_arg := Some (mv3 m (1, 0, 0), mv3 m (0, 0, 1)) |})).
+  { destruct sph; numR; destruct (mk_curved sqrt true _ _ _ r) as [d|]; try discriminate Hg; exists d; split; auto. }
+  destruct Hdet as [d [Hd Hg']]. clear Hg. numR.
+  destruct (Rltb rs 0); [discriminate Hg'|]. destruct (Rltb rd 0); [discriminate Hg'|].
+  destruct (Reqb rs 0 && Reqb rd 0); [discriminate Hg'|]. injection Hg' as ->.
+  assert (Hd' : d = (if sph then Sph (mv3 m (1, 0, 0)) (mv3 m (0, 0, 1)) r (curved_frame sqrt (mv3 m (1, 0, 0)) (mv3 m (0, 0, 1)))
+                     else Cyl (mv3 m (1, 0, 0)) (mv3 m (0, 0, 1)) r (curved_frame sqrt (mv3 m (1, 0, 0)) (mv3 m (0, 0, 1))))).
+  { destruct sph; unfold mk_curved in Hd; numR;
+      destruct (Reqb _ 0); try discriminate Hd; destruct (negb _); try discriminate Hd;
+      destruct (Rleb r 0); try discriminate Hd; injection Hd as <-;
+      rewrite !(sqrt_1_div3 _ U1), !(sqrt_1_div3 _ U3); reflexivity. }
+  subst d.
+  apply cone_detpoint_image; try reflexivity; try exact Hm.
+  cbn [c_det cone_default_curved]. destruct p as [[[u v] [cu su]] [cv sv]].
+  destruct sph; cbn [surf3]; unfold curved_transl, frame0; numR;
+    rewrite !(curved_frame_image m _ _ _ Hm E1 E3), !(mv3_add m), !(mv3_scal m); reflexivity.
 Qed.
 
 (* ---- statements assembled for Props.v ---- *)
@@ -1298,8 +1440,8 @@ Lemma constructed_wf_l :
   (forall rs rd curv s2d axis tr g, mk_fan sqrt rs rd curv s2d axis tr = Some g ->
      dot2 (f_s2d g) (f_s2d g) = 1 /\ wf_det2 (f_det g) /\ 0 <= f_rs g /\ 0 <= f_rd g /\
      ~ (f_rs g = 0 /\ f_rd g = 0) /\ f_tr g = tr) /\
-  (forall rs rd curv pitch off axis s2d axes tr g,
-     mk_cone sqrt rs rd curv pitch off axis s2d axes tr = Some g ->
+  (forall fixed rs rd curv pitch off axis s2d axes tr g,
+     mk_cone sqrt fixed rs rd curv pitch off axis s2d axes tr = Some g ->
      dot3 (c_axis g) (c_axis g) = 1 /\ dot3 (c_s2d g) (c_s2d g) = 1 /\ wf_det3' (c_det g) /\
      0 <= c_rs g /\ 0 <= c_rd g /\ ~ (c_rs g = 0 /\ c_rd g = 0) /\
      c_tr g = tr /\ c_pitch g = pitch /\ c_off g = off).
